@@ -168,7 +168,7 @@ func (e *Engine) getSingle(fr *Frame, c *Ctx, node IfaceV, tok StrV) Value {
 		case *types.Slice:
 			s, okc := tok.Concrete()
 			if !okc {
-				unsup("getSingle: symbolic slice index token")
+				unsup("getSingle: symbolic slice index token on %v (token len %v)", t, tok.Len.ref())
 			}
 			n := 0
 			for _, ch := range s {
